@@ -185,6 +185,14 @@ func checkCase(c Case) error {
 	if rd, err := signature.ReadSignatureData(bytes.NewReader(append(a.Wire(), c.Extra...)), uint32(16+len(c.Extra))); err != nil || !sameLib(rd.Owner, a) || !bytes.Equal(rd.Data, c.Extra) {
 		return fmt.Errorf("ReadSignatureData(%x..): %+v, %v", a.Wire(), rd, err)
 	}
+	// the same bytes from a reader that hands them out a few at a time (a pipe, a buffered reader at a refill): where a
+	// read happens to end is no part of the layout
+	for _, chunk := range []int{1, 3, 7} {
+		pr := &hx.PlainReader{R: bytes.NewReader(append(a.Wire(), c.Extra...)), Chunk: chunk}
+		if rd, err := signature.ReadSignatureData(pr, uint32(16+len(c.Extra))); err != nil || !sameLib(rd.Owner, a) || !bytes.Equal(rd.Data, c.Extra) {
+			return fmt.Errorf("ReadSignatureData(%x..) through a reader that returns %d bytes per call: %+v, %v", a.Wire(), chunk, rd, err)
+		}
+	}
 	// a list whose type is the X.509 GUID, owner = a: decoder must recover the owner from the wire bytes
 	x509w := guid.G{D1: 0xa5c059a1, D2: 0x94e4, D3: 0x4aa7, D4: [8]byte{0x87, 0xb5, 0xab, 0x15, 0x5c, 0x2b, 0xf0, 0x72}}
 	var stream []byte
@@ -204,6 +212,12 @@ func checkCase(c Case) error {
 	if !bytes.Equal(sl.Bytes(), stream) {
 		return fmt.Errorf("SignatureList.Bytes: got %x want %x", sl.Bytes(), stream)
 	}
+	for _, chunk := range []int{1, 5} {
+		slp, err := signature.ReadSignatureList(&hx.PlainReader{R: bytes.NewReader(stream), Chunk: chunk})
+		if err != nil || !sameLib(slp.SignatureType, x509w) || len(slp.Signatures) != 1 || !sameLib(slp.Signatures[0].Owner, a) {
+			return fmt.Errorf("ReadSignatureList through a reader that returns %d bytes per call: %v, list %+v, want X509 / %s", chunk, err, slp, a.Text())
+		}
+	}
 	// list with an arbitrary type GUID written by the encoder
 	l2 := signature.SignatureList{SignatureType: lb, ListSize: 28, SignatureHeader: []byte{}, Signatures: []signature.SignatureData{}}
 	if got := l2.Bytes(); len(got) != 28 || !bytes.Equal(got[:16], b.Wire()) {
@@ -222,6 +236,9 @@ func checkCase(c Case) error {
 	rwc, err := signature.ReadWinCertificateUEFIGUID(bytes.NewReader(wc))
 	if err != nil || !sameLib(rwc.CertType, a) {
 		return fmt.Errorf("ReadWinCertificateUEFIGUID: type %+v err %v, want %s", rwc.CertType, err, a.Text())
+	}
+	if rwc, err := signature.ReadWinCertificateUEFIGUID(&hx.PlainReader{R: bytes.NewReader(wc), Chunk: 3}); err != nil || !sameLib(rwc.CertType, a) {
+		return fmt.Errorf("ReadWinCertificateUEFIGUID through a reader that returns 3 bytes per call: type %+v err %v, want %s", rwc.CertType, err, a.Text())
 	}
 
 	// --- UTF-16
